@@ -227,7 +227,7 @@ func run(t interface {
 
 func TestHostile(t *testing.T) {
 	g := lex.Hostile()
-	vk.R.Rapid(t, 1, 60000, 1500000, func(t *rapid.T) {
+	vk.R.Rapid(t, 1, 150000, 1500000, func(t *rapid.T) {
 		c := Case{Src: vk.Bytes(g.Draw(t, "src")), Comments: rapid.Bool().Draw(t, "comments")}
 		run(t, "scan", c, "src=hostile")
 	})
@@ -235,7 +235,7 @@ func TestHostile(t *testing.T) {
 
 func TestSoup(t *testing.T) {
 	g := lex.Soup(lex.XGoLexeme(), 0, 30)
-	vk.R.Rapid(t, 2, 60000, 1500000, func(t *rapid.T) {
+	vk.R.Rapid(t, 2, 150000, 1500000, func(t *rapid.T) {
 		c := Case{Src: vk.Bytes(g.Draw(t, "src")), Comments: rapid.Bool().Draw(t, "comments")}
 		run(t, "scan", c, "src=soup")
 	})
@@ -243,7 +243,7 @@ func TestSoup(t *testing.T) {
 
 func TestCorpusMutants(t *testing.T) {
 	g := lex.CorpusMutant()
-	vk.R.Rapid(t, 3, 15000, 400000, func(t *rapid.T) {
+	vk.R.Rapid(t, 3, 40000, 400000, func(t *rapid.T) {
 		c := Case{Src: vk.Bytes(g.Draw(t, "src")), Comments: rapid.Bool().Draw(t, "comments")}
 		run(t, "scan", c, "src=corpus-mutant")
 	})
